@@ -39,6 +39,7 @@ func cipherParams(fn *ssa.Function) (pad, ctr int64, hash string, ok bool) {
 }
 
 func c08(r *core.Run) {
+	c08CipherAlways(r)
 	w := r.W
 	chunk := mustConst(r, "pkg/boson", "ChunkSize")
 	refSize := mustConst(r, "pkg/encryption", "ReferenceSize")
